@@ -254,6 +254,24 @@ def main():
                 return EqualizerTuning(playback_function, result_extractor, comparator)
         studio = PlaybackStudio(['EqOp'], Tuner(), rec, recording_ids=list(ids), compare_execution_config=cfg)
         run_comparison = lambda: studio.play()['EqOp']     # noqa: E731
+    elif case.get('ids_iterator'):
+        # the ids come from a generator of the caller (a listing with its own clean-up) that does not take being closed kindly
+        def listing():
+            if case['ids_iterator'] == 'close_raises':
+                try:
+                    for i in ids:
+                        yield i
+                finally:
+                    if case.get('consume', 'full') != 'full':
+                        raise RuntimeError('clean-up of the caller\'s listing failed')
+            else:
+                for i in ids:
+                    try:
+                        yield i
+                    except BaseException:  # noqa - a bare except around the yield: GeneratorExit is swallowed, the generator goes on
+                        pass
+        eq = Equalizer(listing(), player, result_extractor, comparator, compare_execution_config=cfg)
+        run_comparison = eq.run_comparison
     elif case.get('default_config'):
         # the judged equalizer is built WITHOUT a configuration (documented default: in this process, results not kept); another
         # equalizer of the process, also built without one, had its own settings changed after construction
